@@ -21,15 +21,15 @@ def run(rep, tier, seed):
     items = []
     for i in range(n):
         mg = mg_big if (not quick and i % 3 == 0) or (quick and i % 10 == 0) else mg_small
-        m = mg.model()
-        xml = GM.render_xml(m, rng, gui=rng.random() < 0.7)
+        m = mg.model(dynamic=True, kwnames=True)
+        xml = GM.render_xml(m, rng, gui=rng.random() < 0.7, cdata="mixed" if i % 25 == 7 else rng.choice([False, "whole"]))
         entry = rng.choice(["xml_buffer", "xml_buffer", "xml_file", "xml_fd"])
         c = Case("m%d" % i, [Step("parse_builder", 0, "xml_buffer", 1, "doc", 1, xml),
                              Step("parse_doc", 1, entry, 1, 1, xml)], timeout=60)
         items.append((m, c))
     res = run_cases([c for _, c in items])
     stats = {"edges": 0, "locations": 0, "templates": 0, "processes": 0, "instantiations": 0, "branchpoint_edges": 0,
-             "selects": 0, "labels": 0}
+             "selects": 0, "labels": 0, "dynamic_templates": 0, "cdata_sections": 0, "keyword_location_names": 0}
     for m, c in items:
         r = res[c.id]
         if r["status"] != "ok":
@@ -40,8 +40,11 @@ def run(rep, tier, seed):
         exp = GM.expected(m)
         nontrivial = sum(len(t["edges"]) for t in m["templates"]) >= 1
         rep.observe(("model", c.steps[0].args[5]) if nontrivial else None)
+        stats["cdata_sections"] += c.steps[0].args[5].count(b"<![CDATA[")
         for t in m["templates"]:
             stats["templates"] += 1
+            stats["dynamic_templates"] += 1 if t.get("dynamic") else 0
+            stats["keyword_location_names"] += sum(1 for l in t["locations"] if l.get("name") in GM.ModelGen.KW_LOCATION_NAMES)
             stats["locations"] += len(t["locations"])
             stats["edges"] += len(t["edges"])
             for e in t["edges"]:
@@ -51,6 +54,13 @@ def run(rep, tier, seed):
         stats["processes"] += sum(len(g) for g in m["system"])
         stats["instantiations"] += len(m["insts"])
         # builder level: exact mirror
+        import re
+        mixed = re.search(rb"[^>]<!\[CDATA\[|\]\]>[^<]", c.steps[0].args[5]) is not None
+        if mixed and sb.get("exc") == "UTAP::XMLReaderError" and sd.get("exc") == "UTAP::XMLReaderError":
+            rep.violation("C04:text-block-in-several-character-nodes-rejected", "a text block written partly as CDATA section and "
+                          "partly with entity escapes (the same character data for an XML parser) makes the reader throw "
+                          "XMLReaderError: %s" % sb.get("excmsg"), c)
+            continue
         if sb.get("exc") or sb["errors"]:
             rep.violation("C04:builder-rejects-valid-model:%s" % (sb.get("exc") or sb["errors"][0]["msg"]),
                           "generated model rejected at builder level: %s %s" % (sb.get("exc"), sb["errors"][:2]), c)
